@@ -16,7 +16,7 @@ CopyOk(r) ==
             ELSE r.src_after = r.src /\ (r.changed => r.copy_after # r.copy)
 StepOfImpl(s, r) == [ok |-> IF r.e = "eq" THEN EqOk(r) ELSE IF r.e = "copy" THEN CopyOk(r) ELSE FALSE, st |-> s]
 TraceLog == ndJsonDeserialize(IOEnv.TRACE)
-T == INSTANCE TraceBase WITH Log <- TraceLog, InitSt <- 0, StepOf <- StepOfImpl
+T == INSTANCE TraceBase WITH Log <- TraceLog, InitSt <- 0, StepOf <- StepOfImpl, ResyncAtNew <- FALSE
 Spec == T!Spec
 Done == T!Done
 ====
